@@ -166,7 +166,8 @@ class Ctx:
     def translate_registry(self):
         os.makedirs(GEN_DIR, exist_ok=True)
         dump = os.path.join(SCRATCH, 'registry.dump')
-        rc, out = sh([self.vh(), '--dump-registry'], timeout=120)
+        with Lock('build-rel'):       # not while the harness is being re-linked
+            rc, out = sh([self.vh(), '--dump-registry'], timeout=120)
         if rc != 0:
             return False, out
         with Lock('gen'):
@@ -305,8 +306,18 @@ class Ctx:
         wd = os.path.join(SCRATCH, 'run-%s-%d' % (self.pid, os.getpid()))
         os.makedirs(wd, exist_ok=True)
         try:
-            p1 = subprocess.Popen([self.vh(variant)], stdin=subprocess.PIPE, stdout=subprocess.PIPE, stderr=subprocess.DEVNULL,
-                                  cwd=wd, env=dict(os.environ, VH_TIMEOUT_MS=str(timeout_ms), VH_MAX_TIMEOUTS=('5' if getattr(self, '_retrying', False) else '10'), ASAN_OPTIONS='detect_leaks=0:abort_on_error=1', UBSAN_OPTIONS='halt_on_error=1:abort_on_error=1'))
+            p1 = None
+            for attempt in range(60):
+                # another check may be re-linking the harness at this very moment (the new file exists before it is made
+                # executable): wait for it instead of failing
+                try:
+                    p1 = subprocess.Popen([self.vh(variant)], stdin=subprocess.PIPE, stdout=subprocess.PIPE, stderr=subprocess.DEVNULL,
+                                          cwd=wd, env=dict(os.environ, VH_TIMEOUT_MS=str(timeout_ms), VH_MAX_TIMEOUTS=('5' if getattr(self, '_retrying', False) else '10'), ASAN_OPTIONS='detect_leaks=0:abort_on_error=1', UBSAN_OPTIONS='halt_on_error=1:abort_on_error=1'))
+                    break
+                except (PermissionError, FileNotFoundError, OSError):
+                    if attempt == 59:
+                        raise
+                    time.sleep(1)
             p2 = None
             if model:
                 p2 = subprocess.Popen([self.driver()], stdin=subprocess.PIPE, stdout=subprocess.PIPE, stderr=subprocess.DEVNULL, cwd=wd)
